@@ -80,6 +80,11 @@ type Link struct {
 	// beginning went out with an earlier Write call) blocks until Release.
 	BlockFrag bool
 	blocked   []*blockedWriter
+	// FailIf: when it returns an error for a buffer to be written, that Write call fails with this error
+	// and writes nothing; the link stays open (a peer that is half dead: EPIPE, reset, io.EOF ...).
+	// Asked before BlockIf.
+	FailIf func(f Frame) error
+	nfail  int
 }
 
 // Parse splits a written buffer into header and payload (also for headers Header.Read refuses).
@@ -135,6 +140,14 @@ func (l *Link) write(p []byte) (int, error) {
 	if l.closed {
 		l.mu.Unlock()
 		return 0, io.ErrClosedPipe
+	}
+	if l.FailIf != nil {
+		if err := l.FailIf(f); err != nil {
+			l.nfail++
+			l.mu.Unlock()
+			l.net.notify()
+			return 0, err
+		}
 	}
 	if (ok && l.BlockIf != nil && l.BlockIf(f)) || (l.BlockFrag && !f.Head) {
 		bw := &blockedWriter{f: f, rel: make(chan struct{})}
@@ -307,6 +320,23 @@ func (l *Link) Idle() bool {
 	l.mu.Lock()
 	defer l.mu.Unlock()
 	return l.waiting > 0 && len(l.avail) == 0 && len(l.pbuf) == 0 && l.consumed == 0 && len(l.blocked) == 0
+}
+
+// Failed reports how many Write calls were refused by FailIf.
+func (l *Link) Failed() int { l.mu.Lock(); defer l.mu.Unlock(); return l.nfail }
+
+// SetFailIf installs (or, with nil, removes) the FailIf hook under the link's lock.
+func (l *Link) SetFailIf(f func(Frame) error) { l.mu.Lock(); l.FailIf = f; l.mu.Unlock() }
+
+// SetBlockIf installs (or, with nil, removes) the BlockIf hook under the link's lock.
+func (l *Link) SetBlockIf(f func(Frame) bool) { l.mu.Lock(); l.BlockIf = f; l.mu.Unlock() }
+
+// ReaderParked reports that the other end is parked in Read with nothing available to it (frames held back
+// by the valve do not count): it has done whatever it does with the frames released so far.
+func (l *Link) ReaderParked() bool {
+	l.mu.Lock()
+	defer l.mu.Unlock()
+	return l.waiting > 0 && len(l.avail) == 0 && l.consumed == 0
 }
 
 // Writes reports how many Write calls went through (were not refused and are not blocked).
